@@ -5,6 +5,7 @@ import (
 	"go/token"
 	"os"
 	"path/filepath"
+	"regexp"
 	"sort"
 	"strconv"
 	"strings"
@@ -62,4 +63,36 @@ func repoDictionary() []string {
 		sort.Strings(dictVals)
 	})
 	return dictVals
+}
+
+var dictWordRE = regexp.MustCompile(`^[A-Za-z][A-Za-z0-9_.-]{1,23}$`)
+
+// dictWords are the entries of the dictionary that look like a name (of a parameter, a header, an option).
+func dictWords() []string {
+	var out []string
+	for _, w := range repoDictionary() {
+		if dictWordRE.MatchString(w) {
+			out = append(out, w)
+		}
+	}
+	return out
+}
+
+// dictQuery is a query string that carries every name of the dictionary as a parameter (values "", 1, true in turn);
+// skip names are left out.
+func dictQuery(skip ...string) string {
+	var b strings.Builder
+next:
+	for i, w := range dictWords() {
+		for _, s := range skip {
+			if strings.EqualFold(s, w) {
+				continue next
+			}
+		}
+		if b.Len() > 0 {
+			b.WriteByte('&')
+		}
+		b.WriteString(w + "=" + []string{"", "1", "true"}[i%3])
+	}
+	return b.String()
 }
